@@ -2,7 +2,9 @@ PROP = dict(
         coq="Properties/C09.v",
         workloads=[
             dict(name="liquidation-sweeps", go_test="TestC09", runner="C09",
-                 env=dict(quick=dict(VERIF_CASES=400), thorough=dict(VERIF_CASES=6000))),
+                 env=dict(quick=dict(VERIF_CASES=240), thorough=dict(VERIF_CASES=6000))),
+            dict(name="borrow-liquidation", go_test="TestC09Borrow", runner="C09-borrow",
+                 env=dict(quick=dict(VERIF_CASES=60), thorough=dict(VERIF_CASES=2500))),
         ],
         rule="case = (generation V1|V2, 1-2 apps enabled for liquidation, batch 1-5 (0 is rejected by the module's param validation), 1-12 vaults over 4 extended pairs / 2 collateral "
              "assets (decimals 10^6, 10^8) with ratios at, just above and far above the liquidation ratio, then 6-25 blocks of the REAL "
